@@ -110,11 +110,40 @@ def _case(draw, tier):
     for p in inputs:
         if p not in values and prob(draw, 0.35):
             values[p] = ["in", p, 1]
+    signal = False
+    if not inactive and not hidden and prob(draw, 0.1) and not _any_select(wrapper):
+        # an inner node emits an ordering signal and a node OUTSIDE the wrapper waits for it: the wrapper lists the signal among its
+        # outputs, so the waiter must run after the wrapper exactly as it runs after the emitter in the flat graph
+        inner_names = gen._func_names(wrapper)
+        em = draw(st.sampled_from(sorted(inner_names)))
+        for n in topo:
+            if n["name"] == em:
+                n["emit"] = ["sgx"]
+        _add_emit(wrapper, em)
+        wt = {"k": "func", "name": "wtr", "params": [], "defaults": {}, "outs": ["wtr_o"], "wait_for": ["sgx"]}
+        topo = topo + [wt]
+        outer = outer + [dict(wt)]
+        signal = True
     return {"flat": draw(gen.permuted(topo)), "nested": draw(gen.permuted(outer)), "flat_bind": flat_bind, "outer_bind": outer_bind,
-            "values": values, "hidden": hidden, "depth": depth, "inactive": inactive,
+            "values": values, "hidden": hidden, "depth": depth, "inactive": inactive, "signal": signal,
             # a graph-level selection applied to the flat and to the nested graph alike (a selection does not stop other nodes from
             # running when their inputs happen to be there - the nested graph included)
             "outer_select": draw(st.lists(st.integers(0, 11), min_size=1, max_size=2)) if prob(draw, 0.4) else None}
+
+
+def _any_select(w):
+    return w["graph"].get("select") is not None or any(_any_select(x) for x in w["graph"]["nodes"] if x["k"] == "graph")
+
+
+def _add_emit(w, em):
+    """Mark inner function node `em` as emitting `sgx`; every wrapper on the way up lists the signal among its outputs."""
+    for x in w["graph"]["nodes"]:
+        if (x["k"] != "graph" and x["name"] == em) or (x["k"] == "graph" and _add_emit(x, em)):
+            if x["k"] != "graph":
+                x["emit"] = ["sgx"]
+            w["flat_outputs"] = list(w["flat_outputs"]) + ["sgx"]
+            return True
+    return False
 
 
 def _mark_inner(wrapper, marks):
@@ -189,6 +218,8 @@ def check_case(case, ev):
         labels.add("inner_select")
     if any(p in case["outer_bind"] and case["flat_bind"][p][0] == "rebound" for p in case["flat_bind"]):
         labels.add("rebound_outside")
+    if case.get("signal"):
+        labels.add("inner_signal_awaited_outside")
 
     ctx_f = Ctx()
     gf = make_graph(ctx_f, {"nodes": flat_nodes, "bind": case["flat_bind"]}, "sync")
@@ -224,6 +255,9 @@ def check_case(case, ev):
             keys = set(on.values) | set(fvals) | set(exposed)
             diff = {k: (J(on.values.get(k, "<absent>")), J(fvals.get(k, "<absent>")), J(exposed.get(k, "<absent>"))) for k in keys
                     if not (on.values.get(k, "<absent>") == fvals.get(k, "<absent>") == exposed.get(k, "<absent>"))}
+            if case.get("signal") and set(diff) == {"wtr_o"} and "wtr_o" not in on.values and "wtr_o" in fvals:
+                raise Violation("c05.values", f"[{runner}] the node outside the wrapper that waits for a signal emitted inside never ran (it runs in the flat graph): {diff}",
+                                what="waiter_of_inner_signal_never_ran")
             raise Violation("c05.values", f"[{runner}] (nested, flat, reference): {diff}")
         for n in _all_func_nodes(case["nested"]):
             if n["name"] not in active:
